@@ -1,6 +1,7 @@
 import SifVerif.Proofs.Torn
 import SifVerif.Proofs.Fault
 import SifVerif.Proofs.RangesStep
+import SifVerif.Proofs.CleanHistory
 /-!
 # C09 — interrupted modifications never damage other objects
 
@@ -418,6 +419,36 @@ theorem C09_every_interruption_inputs (s : Img) (W : WF s) (P : Placed s) (R : R
         s2.rds[i]? = some d :=
   C09_every_interruption sha ph s W P R op now
     (fun _ => (Ranges_plan sha ph s W R E op now hin).1) hne Cold st' hc
+
+/-- **from `CreateContainer` through any history, then an interruption anywhere**: creation options
+    and every operation's inputs representable, capacity positive, no store failure so far — then
+    whatever operation comes next (inputs representable) and wherever it is cut short (any prefix
+    of its calls, the last write torn at any byte, table and header writes included), the file
+    loads and every slot the operation leaves alone holds the same descriptor.  No hypothesis
+    mentions an invariant of a state: `C09Inv` is established by creation and kept by every step
+    (`Proofs/CleanHistory.lean`). -/
+theorem C09_from_creation (be : Backend) (co : CreateOpts) (hin : co.InRange) (hcap : 0 < co.capacity)
+    (hdoff : 128 ≤ co.doff) (h : (createContainerPlan sha ph be co).2.2 = .ok)
+    (ops : List (Op × Int)) (op : Op) (now : Int) :
+    ∃ st0, (emptyStore be).calls (createContainerPlan sha ph be co).1 = some st0 ∧
+      let s0 : Img := { (createContainerPlan sha ph be co).2.1 with st := st0 }
+      ((∀ k op now, ops[k]? = some (op, now) → Op.InRange (runOps sha ph s0 (ops.take k)) op now) →
+       (∀ k op now, ops[k]? = some (op, now) →
+          (step sha ph (runOps sha ph s0 (ops.take k)) op now).2 ≠ .err .io) →
+       Op.InRange (runOps sha ph s0 ops) op now →
+       ∀ st', CrashOf (runOps sha ph s0 ops).st (plan sha ph (runOps sha ph s0 ops) op now).1 st' →
+         ∃ s2, loadContainer st' = .ok s2 ∧
+           ∀ (i : Nat) (d : RawDesc), (runOps sha ph s0 ops).rds[i]? = some d →
+             ((plan sha ph (runOps sha ph s0 ops) op now).2.2 = .ok →
+               (plan sha ph (runOps sha ph s0 ops) op now).2.1.rds[i]? = some d) →
+             s2.rds[i]? = some d) := by
+  obtain ⟨st0, h1, I0⟩ := created_C09Inv sha ph be co hin hcap hdoff h
+  refine ⟨st0, h1, ?_⟩
+  intro s0 hi hio hop st' hc
+  have I := C09Inv_history sha ph s0 ops I0 hi hio ops.length
+  rw [List.take_length] at I
+  exact C09_every_interruption_inputs sha ph _ I.wf I.placed I.ranges I.ends op now hop
+    I.nonempty I.clean st' hc
 
 /-- **C09, an I/O error is returned**: if some call of the plan fails, the operation's result is
     the I/O error, and the store is the one the calls before the failure left. -/
